@@ -231,6 +231,19 @@ pub fn build_module(log: Log, subs: SubRegistry, auto_sub: bool) -> RpcModule<()
 	}
 	{
 		let log = log.clone();
+		m.register_async_method("slow", move |p, _, ext| {
+			let log = log.clone();
+			async move {
+				log_invocation(&log, &ext, "slow", &p);
+				tokio::time::sleep(Duration::from_millis(300)).await;
+				rt::event("handler-done", "slow");
+				p.parse::<Value>()
+			}
+		})
+		.unwrap();
+	}
+	{
+		let log = log.clone();
 		m.register_blocking_method("becho", move |p, _, ext| {
 			log_invocation(&log, &ext, "becho", &p);
 			p.parse::<Value>()
@@ -495,6 +508,9 @@ pub struct SrvCfg {
 	pub buf_cap: u32,
 	pub frag: Frag,
 	pub auto_sub: bool,
+	/// WebSocket pings every second, inactivity limit 2 s, one failure (hook H6 puts the inactivity clock on the
+	/// virtual clock)
+	pub ping: bool,
 }
 
 impl Default for SrvCfg {
@@ -509,6 +525,7 @@ impl Default for SrvCfg {
 			buf_cap: 1024,
 			frag: Frag::default(),
 			auto_sub: true,
+			ping: false,
 		}
 	}
 }
@@ -537,7 +554,11 @@ impl World {
 		let subs: SubRegistry = Arc::default();
 		let ids = Arc::new(ScriptedIds::default());
 		let module = build_module(log.clone(), subs.clone(), cfg.auto_sub);
-		let server_cfg = ServerConfig::builder()
+		let mut b = ServerConfig::builder();
+		if cfg.ping {
+			b = b.enable_ws_ping(jsonrpsee_server::PingConfig::new().ping_interval(Duration::from_secs(1)).inactive_limit(Duration::from_secs(2)).max_failures(1));
+		}
+		let server_cfg = b
 			.max_request_body_size(cfg.max_req)
 			.max_response_body_size(cfg.max_resp)
 			.max_connections(cfg.max_conns)
